@@ -75,7 +75,7 @@ def finish(pid, tier, seed, repo, results, bounded, lean, known, wall, meta):
         if r.get("info"):
             functions.append(dict(contract=r["contract"], file=r["info"]["file"], qualname=r["info"]["qualname"], lines=r["info"]["lines"],
                                   sha256=r["info"]["sha256"], fragment=r.get("fragment"), paths=r.get("n_paths"),
-                                  obligations=len(r["obligations"]), inlined_callees=r.get("inlined", []),
+                                  obligations=len(r["obligations"]), inlined_callees=r.get("inlined", []), callees_replaced_by_models=r.get("callee_models", []),
                                   moved_from=r["info"].get("moved_from")))
         for b in r.get("batteries", []):
             batteries.append(dict(contract=r["contract"], target=b["target"], ok=b["ok"], seconds=b["seconds"]))
@@ -192,8 +192,18 @@ def finish(pid, tier, seed, repo, results, bounded, lean, known, wall, meta):
         cov["rule"] = "one evaluation = one proof obligation (path x clause) generated from the real AST; distinct_nontrivial = obligations discharged (unsat) by the solver"
     if not cov["samples"]:
         cov["samples"] = [dict(note="no obligation discharged in this run")]
+    # callee contracts: a contract sees its callees through models; a modelled callee that is itself under contract (anywhere in the
+    # registry) is carried by that contract, the others are ASSUMED contracts on dependencies
+    from pyvc.contract import REGISTRY
+    proved_q = {c.fn.split("::")[-1] for c in REGISTRY.values() if c.fn}
+    assumed = sorted({m for f in functions for m in f.get("callees_replaced_by_models", []) if m.split(":")[-1] not in proved_q})
+    carried = sorted({m for f in functions for m in f.get("callees_replaced_by_models", []) if m.split(":")[-1] in proved_q})
+    cov["callee_contracts"] = dict(note="a calling contract sees a callee only through the model it supplies; 'also_under_contract' = the callee has a contract of its own in "
+                                        "this registry (the model is written from it but not mechanically compared with it); 'assumed' = no contract of its own",
+                                   also_under_contract=carried, assumed=assumed)
+    callee_assumptions = ["assumed callee contract (model supplied by the calling contract, callee body not verified against it): " + m for m in assumed]
     ev = dict(property_id=pid, tier=tier, seed=seed, level=level, coverage=cov,
-              assumptions=BUILTIN_ASSUMPTIONS + meta.get("assumptions", []), wall_s=round(wall, 2), violations=violations)
+              assumptions=BUILTIN_ASSUMPTIONS + meta.get("assumptions", []) + callee_assumptions, wall_s=round(wall, 2), violations=violations)
     # developer runs against a scratch copy (tools/try_seed.sh) redirect the evidence so that /verif/evidence always describes /repo
     evdir = os.environ.get("VERIF_EVIDENCE_DIR") or os.path.join(VERIF, "evidence")
     os.makedirs(evdir, exist_ok=True)
